@@ -3,6 +3,7 @@ package h
 import (
 	"encoding/json"
 	"fmt"
+	"github.com/netflix/rend/verifshim/vsync"
 	"strconv"
 
 	"github.com/netflix/rend/handlers/memcached/chunked"
@@ -204,6 +205,12 @@ type chunkRaceResult struct {
 
 func runChunkRace(sc ChunkRace, prefix []int) *chunkRaceResult {
 	res := &chunkRaceResult{}
+	vsync.TakeDoublePuts()
+	defer func() {
+		if f := doublePut("C05"); f != nil {
+			res.Findings = append(res.Findings, *f)
+		}
+	}()
 	key := "k"
 	p := payloadFor(len(key))
 	size := func(n int) int { return (n-1)*p + p/3 + 1 }
